@@ -10,6 +10,7 @@ import (
 	"path/filepath"
 	"regexp"
 	"strings"
+	"sync"
 	"time"
 )
 
@@ -88,6 +89,22 @@ func writeReplay(p *Prog, pd *PropDef, ob *Obligation, opts SolveOpts) (string, 
 		}
 	}
 	if !found {
+		// property-level replay: the property itself, stated on a catalogue of concrete cases (oracles/)
+		if out, src, ok := runOracle(p.RepoDir, pd.ID); ok {
+			repro := strings.Contains(out, "REPRODUCED:")
+			rf.Replay = &ReplayOutcome{Case: "oracle " + pd.ID, Reproduced: repro, Output: tail(out, 4000), TestSource: "zzOracle" + pd.ID + " in /verif/oracles/oracles_test.go.txt (" + itoa(len(src)) + " bytes)"}
+			if repro {
+				found = true
+				for _, l := range strings.Split(out, "\n") {
+					if strings.Contains(l, "REPRODUCED:") {
+						rf.Replay.Input = strings.TrimSpace(l[strings.Index(l, "REPRODUCED:")+11:])
+						break
+					}
+				}
+			}
+		}
+	}
+	if !found {
 		rf.Note = "no-failing-input-found: the obligation is reported because it is part of the property and is no longer discharged; no concrete input was reproduced against the real code"
 	}
 	b, _ := json.MarshalIndent(rf, "", " ")
@@ -153,6 +170,28 @@ func runReplayTest(repo, src string, race bool) (string, bool) {
 		s += "\nREPRODUCED: the race detector reports a data race between concurrent executions (see output)\n"
 	}
 	return s, strings.Contains(s, "REPRODUCED:")
+}
+
+var oracleDir = "/verif/oracles"
+var oracleMu sync.Mutex
+var oracleCache = map[string][2]string{}
+
+// runOracle runs zzOracle<prop> (if the oracle file defines it) against the tree; one run per property and process.
+func runOracle(repo, prop string) (out, src string, ok bool) {
+	oracleMu.Lock()
+	defer oracleMu.Unlock()
+	if c, hit := oracleCache[repo+"|"+prop]; hit {
+		return c[0], c[1], c[1] != ""
+	}
+	b, err := os.ReadFile(filepath.Join(oracleDir, "oracles_test.go.txt"))
+	if err != nil || !strings.Contains(string(b), "func zzOracle"+prop+"()") {
+		oracleCache[repo+"|"+prop] = [2]string{"", ""}
+		return "", "", false
+	}
+	src = string(b) + "\nfunc TestPvcReplay(t *testing.T) { zzOracle" + prop + "() }\n"
+	out, _ = runReplayTest(repo, src, false)
+	oracleCache[repo+"|"+prop] = [2]string{out, src}
+	return out, src, true
 }
 
 var _ = fmt.Sprintf
